@@ -48,10 +48,15 @@ type Unit struct {
 	checkOverflow bool
 	safety    map[string]bool
 	cellStatic map[string]Val
+	hyps      []hyp
+	ghostSyms []string
+	freshRefs map[string]bool
+	keyElem   map[string]types.Type // element type of heap keys (for heap typing axioms)
+	Timeout   int
 }
 
 func newUnit(eng *Engine, name string, mode Mode) *Unit {
-	u := &Unit{eng: eng, Name: name, mode: mode, declared: map[string]bool{}, keySort: map[string]string{}, kindCount: map[string]int{}, Notes: map[string]bool{}, specDone: map[string]*compiledSpec{}}
+	u := &Unit{eng: eng, Name: name, mode: mode, declared: map[string]bool{}, keySort: map[string]string{}, kindCount: map[string]int{}, Notes: map[string]bool{}, specDone: map[string]*compiledSpec{}, freshRefs: map[string]bool{}, keyElem: map[string]types.Type{}}
 	u.safety = map[string]bool{"index": true, "slice": true, "div": true, "makelen": true, "typeassert": true, "overflow": !mode.BV, "nil": false, "panic": true, "shift": true}
 	u.prelude()
 	return u
@@ -293,6 +298,7 @@ func (u *Unit) regKey(key, sort string) string {
 
 func (u *Unit) keyField(t types.Type, i int) string {
 	st := t.Underlying().(*types.Struct)
+	u.keyElem[fmt.Sprintf("H.%s.%s", shortTypeName(t), st.Field(i).Name())] = st.Field(i).Type()
 	return u.regKey(fmt.Sprintf("H.%s.%s", shortTypeName(t), st.Field(i).Name()), "(Array Int "+u.sortOf(st.Field(i).Type())+")")
 }
 
@@ -309,10 +315,12 @@ func (u *Unit) keyM(elem types.Type) string {
 	} else {
 		name = shortTypeName(elem)
 	}
+	u.keyElem["M."+name] = elem
 	return u.regKey("M."+name, fmt.Sprintf("(Array Int (Array %s %s))", u.mode.idxSort(), es))
 }
 
 func (u *Unit) keyCell(t types.Type) string {
+	u.keyElem["C."+shortTypeName(t)] = t
 	return u.regKey("C."+shortTypeName(t), "(Array Int "+u.sortOf(t)+")")
 }
 
@@ -324,6 +332,7 @@ func (u *Unit) keyMapDom(m *types.Map) string {
 	return u.regKey("MapDom."+shortTypeName(m.Key())+"."+shortTypeName(m.Elem()), "(Array Int (Array "+u.sortOf(m.Key())+" Bool))")
 }
 func (u *Unit) keyMapVal(m *types.Map) string {
+	u.keyElem["MapVal."+shortTypeName(m.Key())+"."+shortTypeName(m.Elem())] = m.Elem()
 	return u.regKey("MapVal."+shortTypeName(m.Key())+"."+shortTypeName(m.Elem()), "(Array Int (Array "+u.sortOf(m.Key())+" "+u.sortOf(m.Elem())+"))")
 }
 func (u *Unit) keyMapLen() string { return u.regKey("MapLen", "(Array Int Int)") }
@@ -377,4 +386,26 @@ func sortedKeys[V any](m map[string]V) []string {
 	}
 	sort.Strings(ks)
 	return ks
+}
+
+// heapTyping asserts that every value stored under a heap constant satisfies the
+// representation invariant of its Go type (well-typed heap).
+func (u *Unit) heapTyping(key, c string) {
+	et, ok := u.keyElem[key]
+	if !ok {
+		return
+	}
+	I := u.mode.idxSort()
+	switch {
+	case strings.HasPrefix(key, "M."):
+		el := "(select (select " + c + " r) i)"
+		if ti := u.typeInvariant(el, et, 0); ti != "" {
+			u.emit("(assert (forall ((r Int) (i %s)) (! %s :pattern (%s))))", I, ti, el)
+		}
+	case strings.HasPrefix(key, "H."), strings.HasPrefix(key, "C."):
+		el := "(select " + c + " r)"
+		if ti := u.typeInvariant(el, et, 0); ti != "" {
+			u.emit("(assert (forall ((r Int)) (! %s :pattern (%s))))", ti, el)
+		}
+	}
 }
